@@ -1,4 +1,4 @@
-import Oracle.SpecConv
+import Oracle.SpecKernel
 
 def main : IO UInt32 :=
-  Oracle.run (Oracle.mkTable Gen.table) Oracle.convSpecTable
+  Oracle.run (Oracle.mkTable Gen.table) Oracle.kernelSpecTable
